@@ -300,10 +300,28 @@ def c18_static(task):
     def ob(oid, ok, info=None):
         out["results"].append(dict(id=oid, kind="post", props=["C18"], verdict="proved" if ok else "refuted", backend="ast-scan", secs=0.0, func="bt.backtest.Result", model=None if ok else (info or {})))
 
-    init = ast.unparse(prog.func("bt.backtest.Result.__init__").node)
-    ob("C18/Result.__init__/price-frame-is-strategy.prices-by-backtest-name", "pd.DataFrame({x.name: x.strategy.prices}) for x in backtests" in init and "__init__(*tmp)" in init, dict(source=init[:300]))
-    gt = ast.unparse(prog.func("bt.backtest.Result.get_transactions").node)
-    ob("C18/Result.get_transactions/returns-the-strategy's-list", "return self.backtests[strategy_name].strategy.get_transactions()" in gt, dict(source=gt[-200:]))
-    pos = ast.unparse(prog.func("bt.backtest.Backtest.positions").node)
-    ob("C18/Backtest.positions/is-the-strategy's", "return self.strategy.positions" in pos, dict(source=pos[-120:]))
+    # matched on the AST shape, independent of local names
+    def is_attr_chain(n, *attrs):
+        for a in reversed(attrs):
+            if not (isinstance(n, ast.Attribute) and n.attr == a):
+                return None
+            n = n.value
+        return n
+
+    init = prog.func("bt.backtest.Result.__init__").node
+    ok = False
+    for n in ast.walk(init):
+        if isinstance(n, ast.Dict) and len(n.keys) == 1:
+            kb = is_attr_chain(n.keys[0], "name")
+            vb = is_attr_chain(n.values[0], "strategy", "prices")
+            if isinstance(kb, ast.Name) and isinstance(vb, ast.Name) and kb.id == vb.id:
+                ok = True
+    ob("C18/Result.__init__/price-frame-is-strategy.prices-by-backtest-name", ok, dict(source=ast.unparse(init)[:300]))
+    gt = prog.func("bt.backtest.Result.get_transactions").node
+    ok = any(isinstance(n, ast.Return) and isinstance(n.value, ast.Call) and isinstance(n.value.func, ast.Attribute) and n.value.func.attr == "get_transactions"
+             and isinstance(n.value.func.value, ast.Attribute) and n.value.func.value.attr == "strategy" for n in ast.walk(gt))
+    ob("C18/Result.get_transactions/returns-the-strategy's-list", ok, dict(source=ast.unparse(gt)[-200:]))
+    pos = prog.func("bt.backtest.Backtest.positions").node
+    ok = any(isinstance(n, ast.Return) and is_attr_chain(n.value, "strategy", "positions") is not None for n in ast.walk(pos))
+    ob("C18/Backtest.positions/is-the-strategy's", ok, dict(source=ast.unparse(pos)[-120:]))
     return out
